@@ -6,6 +6,9 @@ checks = {
  "C04": dict(cat="exploration", tech="exhaustive single-field mutation of valid signed transactions of every kind, executed on the real application (CheckTx + delivered in a block vs. twin)",
    text="Every operator of a finite mutation list (each payload leaf, each fee field, memo, every other type, signature bytes, signer key, key algorithm, signature list shape; thorough: one bit flip at every byte) is applied to a valid transaction of every kind in a state where it succeeds; each mutant must be rejected by CheckTx and leave state, app hash and validator updates equal to the twin run without it. Exhaustive over kinds x operators; not over all byte strings.",
    note="Trusted: the harness' Tendermint stand-in and tx factory; covers the kinds that have a catalogue scenario (listed in the evidence). Operators that only change the unused Signer key of sender-recovery (OLVM) signatures are classed as re-encodings (C05).", ref="DESIGN.md section 3 C04"),
+ "C05": dict(cat="exploration", tech="exhaustive re-encoding enumeration of executed transactions of every kind, resubmitted at later heights on the real application (CheckTx + delivered vs. twin), with the tx index fresh and lagging",
+   text="For every kind a valid transaction is executed in a block; then the byte-identical transaction and every re-encoding of a finite operator list (leading/trailing/inner whitespace, key order, duplicate key, unknown field, string escape, key case, non-canonical base64 trailing bits, extra field in signature objects, unused signer key of recovery signatures) that parses to the same content and is admitted on a fresh state is resubmitted 1 and 3 blocks later, via CheckTx and directly in a block, with the node's tx index up to date and one block late; CheckTx must reject it and the state must equal the twin without it.",
+   note="'Any other encoding' is covered by the operator list (every leniency of the JSON/base64 decoders in use). Known finding (not small to fix, listed per kind and path): the replay lookup uses Tendermint's asynchronously filled tx index, so a byte-identical resubmission while the index lags is not recognised.", ref="DESIGN.md section 3 C05"),
  "C06": dict(cat="fault_enumeration", tech="failure-point enumeration: one failing transaction inserted at every position of every block of every catalogue history, twin-run comparison on the real application",
    text="For every catalogue history, at every position of every block, one transaction that fails in DeliverTx is inserted (gas limit one below its own use -> fee step fails after the handler succeeded; unpayable fee price; gas limit 1; repeat of a non-repeatable transaction; valid transactions of other kinds whose preconditions do not hold). The run must give the same app hashes, validator updates and results for all other transactions (this and all later blocks) as the twin without it.",
    note="One failing transaction per execution. Failure points reached are those the catalogue's kinds and states produce (failure logs counted in the evidence); EVM programs reading GASLIMIT are not in the catalogue.", ref="DESIGN.md section 3 C06"),
